@@ -274,8 +274,24 @@ def _valid_d(d, parent, v):
     raise ValueError(d)
 
 
+SPEC_VERSION = (1, 1)
+
+
+def version_ok(v):
+    """the library's own documented rule: readable if its major or its minor version is not older than the document's"""
+    if not isinstance(v, str):
+        return False
+    try:
+        parts = [int(x) for x in v.replace("-", ".").split(".")]
+    except ValueError:
+        return False
+    if len(parts) < 2:
+        return False
+    return SPEC_VERSION[0] >= parts[0] or SPEC_VERSION[1] >= parts[1]
+
+
 def valid_document(doc):
-    return (isinstance(doc, dict) and set(doc) == {"type", "data", "version"} and isinstance(doc["version"], str)
+    return (isinstance(doc, dict) and set(doc) == {"type", "data", "version"} and version_ok(doc["version"])
             and isinstance(doc["type"], str) and valid(doc["type"], doc["data"]))
 
 
